@@ -305,11 +305,124 @@ mod rel {
     }
 }
 
+// ---------------------------------------------------------------------------------------------------------
+// C12: satisfaction of a relationship field by installed versions, against the statement's own reading
+mod sat {
+    use super::{Fail, Rng};
+    use debian_control::lossy;
+    use debian_control::lossless::relations::Relations as LRelations;
+    use debian_control::relations::VersionConstraint;
+    use debversion::Version;
+    use std::collections::HashMap;
+    use std::str::FromStr;
+    const NAMES: &[&str] = &["foo", "foo-dev", "libfoo", "libfoo1", "bar", "b"];
+    const VERSIONS: &[&str] = &["0.9", "1.0", "1.0-1", "1:0.5", "2.0~rc1", "2.0", "3.0"];
+    fn holds(c: &VersionConstraint, installed: &Version, wanted: &Version) -> bool {
+        match c {
+            VersionConstraint::LessThan => installed < wanted,
+            VersionConstraint::LessThanEqual => installed <= wanted,
+            VersionConstraint::Equal => installed == wanted,
+            VersionConstraint::GreaterThanEqual => installed >= wanted,
+            VersionConstraint::GreaterThan => installed > wanted,
+        }
+    }
+    pub fn run() -> Result<usize, Fail> {
+        let mut r = Rng(0x2545F4914F6CDD1D);
+        let cons = [VersionConstraint::GreaterThanEqual, VersionConstraint::LessThanEqual, VersionConstraint::Equal, VersionConstraint::GreaterThan, VersionConstraint::LessThan];
+        let mut n = 0;
+        for _ in 0..6000 {
+            // a field of 1..3 entries of 1..3 alternatives
+            let ne = 1 + r.below(3);
+            let field: Vec<Vec<lossy::Relation>> = (0..ne).map(|_| { let na = 1 + r.below(3); (0..na).map(|_| lossy::Relation {
+                name: r.pick(NAMES).to_string(), archqual: None, architectures: None, profiles: vec![],
+                version: if r.below(3) > 0 { Some((cons[r.below(5)].clone(), r.pick(VERSIONS).parse().unwrap())) } else { None } }).collect() }).collect();
+            let rels = lossy::Relations(field.clone());
+            let text = rels.to_string();
+            let ll = match LRelations::from_str(&text) { Ok(x) => x, Err(_) => continue };
+            // installed: 0..3 packages
+            let ni = r.below(4);
+            let mut map: HashMap<String, Version> = HashMap::new();
+            for _ in 0..ni { map.insert(r.pick(NAMES).to_string(), r.pick(VERSIONS).parse().unwrap()); }
+            let want = field.iter().all(|e| e.iter().any(|a| match map.get(&a.name) { None => false, Some(iv) => match &a.version { None => true, Some((c, v)) => holds(c, iv, v) } }));
+            n += 1;
+            let desc = format!("field {:?} installed {:?}", text, map.iter().map(|(k, v)| format!("{}={}", k, v)).collect::<Vec<_>>());
+            let clos = |name: &str| map.get(name).cloned();
+            let answers = [("lossy/closure", rels.satisfied_by(&clos)), ("lossless/closure", ll.satisfied_by(&clos))];
+            for (who, got) in answers {
+                if got != want { return Err(Fail { prop: "C12".into(), input: desc.clone(), what: format!("{} evaluator disagrees with the statement", who), expected: format!("{}", want), got: format!("{}", got) }); }
+            }
+            // single relations, through the map and the name/version pair forms
+            for e in &field { for a in e {
+                let w1 = match map.get(&a.name) { None => false, Some(iv) => match &a.version { None => true, Some((c, v)) => holds(c, iv, v) } };
+                let g1 = a.satisfied_by(map.clone());
+                if g1 != w1 { return Err(Fail { prop: "C12".into(), input: format!("relation {:?} installed {:?}", a.to_string(), desc), what: "lossy relation / map lookup disagrees with the statement".into(), expected: format!("{}", w1), got: format!("{}", g1) }); }
+                for (k, v) in map.iter() {
+                    let w2 = if *k == a.name { match &a.version { None => true, Some((c, wv)) => holds(c, v, wv) } } else { false };
+                    let g2 = a.satisfied_by((k.clone(), v.clone()));
+                    if g2 != w2 { return Err(Fail { prop: "C12".into(), input: format!("relation {:?} installed pair {}={}", a.to_string(), k, v), what: "lossy relation / pair lookup disagrees with the statement".into(), expected: format!("{}", w2), got: format!("{}", g2) }); }
+                }
+            } }
+        }
+        Ok(n)
+    }
+}
+// ---------------------------------------------------------------------------------------------------------
+// C17: copyright file lookup, against the statement's own reading of the DEP-5 globs
+mod cpr {
+    use super::{Fail, Rng};
+    use std::str::FromStr;
+    /// '*' any run (also '/'), '?' exactly one character, '\' makes the next '*', '?' or '\' literal
+    fn glob(p: &[char], s: &[char]) -> bool {
+        if p.is_empty() { return s.is_empty(); }
+        match p[0] {
+            '*' => (0..=s.len()).any(|k| glob(&p[1..], &s[k..])),
+            '?' => !s.is_empty() && glob(&p[1..], &s[1..]),
+            '\\' if p.len() > 1 => !s.is_empty() && s[0] == p[1] && glob(&p[2..], &s[1..]),
+            c => !s.is_empty() && s[0] == c && glob(&p[1..], &s[1..]),
+        }
+    }
+    const PATS: &[&str] = &["*", "src/*", "src/*.c", "src/*?", "doc/*??.txt", "*.h", "a?c", "win\\\\*", "glob/star\\*", "debian/*", "src/a.c", "?", "*/*"];
+    const PATHS: &[&str] = &["src/a.c", "src/", "src/ab", "doc/a.txt", "doc/abc.txt", "x.h", "abc", "ac", "win\\foo.c", "glob/star*", "glob/starx", "debian/rules", "a", "README", "a/b"];
+    const LICS: &[&str] = &["MIT", "GPL-2+", "BSD-3-clause", "Apache-2.0"];
+    pub fn run() -> Result<usize, Fail> {
+        let mut r = Rng(0x94D049BB133111EB);
+        let mut n = 0;
+        for _ in 0..3000 {
+            let np = 1 + r.below(4);
+            let paras: Vec<(Vec<&str>, &str)> = (0..np).map(|_| { let k = 1 + r.below(2); ((0..k).map(|_| *r.pick(PATS)).collect(), *r.pick(LICS)) }).collect();
+            let mut text = String::from("Format: https://www.debian.org/doc/packaging-manuals/copyright-format/1.0/\n");
+            for (pats, lic) in &paras { text.push_str(&format!("\nFiles: {}\nCopyright: 2024 X\nLicense: {}\n", pats.join(" "), lic)); }
+            for lic in LICS { text.push_str(&format!("\nLicense: {}\n text of {}\n", lic, lic)); }
+            let lossy = match debian_copyright::lossy::Copyright::from_str(&text) { Ok(x) => x, Err(e) => return Err(Fail { prop: "C17".into(), input: text.clone(), what: "lossy reader rejects a machine-readable copyright file".into(), expected: "Ok".into(), got: format!("{:?}", e) }) };
+            let lossless = match debian_copyright::lossless::Copyright::from_str(&text) { Ok(x) => x, Err(e) => return Err(Fail { prop: "C17".into(), input: text.clone(), what: "lossless reader rejects a machine-readable copyright file".into(), expected: "Ok".into(), got: format!("{:?}", e) }) };
+            for path in PATHS {
+                n += 1;
+                let pc: Vec<char> = path.chars().collect();
+                let want = paras.iter().rposition(|(pats, _)| pats.iter().any(|p| glob(&p.chars().collect::<Vec<_>>(), &pc)));
+                let want_lic = want.map(|i| paras[i].1.to_string());
+                let p = std::path::Path::new(path);
+                let got_lossy = lossy.find_license_for_file(p).and_then(|l| l.name().map(|s| s.to_string()));
+                let got_ll = lossless.find_license_for_file(p).and_then(|l| l.name().map(|s| s.to_string()));
+                let input = format!("{}\n--- path: {}", text, path);
+                if got_lossy != want_lic { return Err(Fail { prop: "C17".into(), input, what: "lossy lookup: not the last matching Files paragraph".into(), expected: format!("{:?}", want_lic), got: format!("{:?}", got_lossy) }); }
+                if got_ll != want_lic { return Err(Fail { prop: "C17".into(), input, what: "lossless lookup: not the last matching Files paragraph".into(), expected: format!("{:?}", want_lic), got: format!("{:?}", got_ll) }); }
+            }
+        }
+        Ok(n)
+    }
+}
+
 const N_DOCS: usize = 4000;
 fn main() {
     let args: Vec<String> = std::env::args().collect();
     if args.len() < 2 { eprintln!("usage: vwit <C03|C04|C06|C08>"); std::process::exit(3); }
     let prop = args[1].as_str();
+    if prop == "C12" {
+        match sat::run() { Ok(n) => { eprintln!("vwit C12: no failing input among {} field / installed-set pairs", n); return; } Err(f) => f.print_and_exit() }
+    }
+    if prop == "C17" {
+        match cpr::run() { Ok(n) => { eprintln!("vwit C17: no failing input among {} lookups", n); return; } Err(f) => f.print_and_exit() }
+    }
     if prop == "C10" {
         match rel::run_lossless() {
             Ok(n) => { eprintln!("vwit C10: no failing input among {} relation fields", n); return; }
